@@ -224,7 +224,7 @@ class Val:
 
 class Module:
     def __init__(s):
-        s.named = {}; s.globals = {}; s.funcs = {}; s.aliases = {}
+        s.named = {}; s.globals = {}; s.funcs = {}; s.aliases = {}; s.ctors = []
 
 def parse_module(text):
     M = Module()
@@ -235,6 +235,10 @@ def parse_module(text):
         if ln.startswith('%') and ' = type ' in ln:
             p = Parser(tokenize(ln)); name = p.next()[1][1:]; p.expect('='); p.expect('type')
             M.named[nm(name)] = p.ty()
+        elif ln.startswith('@llvm.global_ctors'):
+            M.ctors = [nm(x) for x in re.findall(r'void \(\)\* @("[^"]*"|[-a-zA-Z$._0-9]+)', ln)]
+        elif ln.startswith('@llvm.'):
+            pass
         elif ln.startswith('@'):
             parse_global(M, ln)
         elif ln.startswith('declare '):
@@ -1002,6 +1006,9 @@ class Fn:
         args = [a for a in I['args']]
         if c.kind == 'glob' and c.name.startswith('llvm.'):
             return s.emit_intrinsic(I, out)
+        if c.kind == 'glob' and c.name == '__cxa_atexit':
+            if d is not None: s.declare(d, rt); out.append('%s = 0;' % s.reg(d))
+            return
         if c.kind == 'glob' and c.name in ('vassert_', 'vassume_', 'vreach_'):
             A = [a[0] for a in args]
             if c.name == 'vassume_': out.append('VASSUME(%s);' % E.vexpr(A[0], s)); return
@@ -1023,6 +1030,8 @@ class Fn:
         else:
             # indirect: callee is a typed function pointer value; build type from call
             fty = I['fty'] or FnTy(rt, [a[0].ty for a in args if a[0] is not None], False)
+            dv = s.devirtualise(I, fty, args, out) if c.kind == 'reg' else False
+            if dv: return
             if c.kind in ('reg',):
                 fexpr = '((%s)%s)' % (E.fnptr_typedef(fty), s.reg(c.name))
             else:
@@ -1050,6 +1059,83 @@ class Fn:
                 call = '((%s)%s)' % (E.cty(rt), call)
             out.append('%s = %s;' % (s.reg(d), call))
 
+
+    def vtables(s):
+        """all vtable globals of the module: list of (global name, array index, [element Val...])"""
+        E = s.E
+        if hasattr(E, '_vtables'): return E._vtables
+        vts = []
+        for g, gi in E.M.globals.items():
+            if not g.startswith('_ZTV') or gi['init'] is None or gi['init'].kind != 'cstruct': continue
+            for ai, arr in enumerate(gi['init'].els):
+                if arr.kind == 'carray': vts.append((g, ai, arr.els))
+        E._vtables = vts
+        return vts
+
+    def devirtualise(s, I, fty, args, out):
+        """virtual call pattern: f = load (gep (load vptr), k); call f(...)  ->  cascade over the vtables of the module
+        whose slot k holds a function of the same signature (CBMC's own function-pointer removal considers every
+        address-taken function of a compatible type, which makes symex explore dozens of unrelated callees)."""
+        E = s.E; c = I['callee']
+        D = s.defs.get(c.name)
+        if D is None or D['op'] != 'load': return False
+        pv = D['ptr']; k = 0
+        if pv.kind != 'reg': return False
+        G = s.defs.get(pv.name)
+        if G is None: return False
+        if G['op'] == 'getelementptr':
+            if len(G['ops']) != 2 or G['ops'][1].kind != 'int' or G['ops'][0].kind != 'reg': return False
+            k = G['ops'][1].v; vt = G['ops'][0]
+            V = s.defs.get(vt.name)
+        else:
+            V = G; vt = pv
+        if V is None or V['op'] != 'load': return False
+        # vt must be a pointer to pointer to function
+        t = E.resolve(V['ty'])
+        if not (isinstance(t, PtrTy) and isinstance(E.resolve(t.to), PtrTy) and isinstance(E.resolve(E.resolve(t.to).to), FnTy)): return False
+        cands = []
+        nparams = len([a for a in args])
+        for (g, ai, els) in s.vtables():
+            idx = 2 + k
+            if idx >= len(els): continue
+            e = els[idx]
+            while e.kind == 'ccast': e = e.x
+            if e.kind != 'glob' or e.name not in E.M.funcs: continue
+            f = E.M.funcs[e.name]
+            if e.name == '__cxa_pure_virtual': continue
+            if len(f['params']) != nparams or f['ret'].key() != fty.ret.key(): continue
+            ok = True
+            for (pt, pn, pa), (a, aa) in list(zip(f['params'], args))[1:]:
+                if a is not None and pt.key() != a.ty.key():
+                    # pointer-to-struct params may differ by llvm-link type renaming: accept any pointer pair
+                    if not (isinstance(E.resolve(pt), PtrTy) and isinstance(E.resolve(a.ty), PtrTy)): ok = False
+            if ok: cands.append((g, ai, e.name))
+        if not cands: return False
+        d = I['dst']; rt = I['ty']
+        isvoid = isinstance(E.resolve(rt), VoidTy) or d is None
+        if not isvoid: s.declare(d, rt)
+        vp = '((u8*)%s)' % s.reg(vt.name)
+        first = True
+        seen = set()
+        for (g, ai, fn) in cands:
+            E.used_globals.add(g); E.used_funcs.add(fn)
+            tp = E.M.funcs[fn]['params']
+            aexprs = []
+            for i, (a, attrs) in enumerate(args):
+                e = E.vexpr(a, s)
+                if i < len(tp) and tp[i][0].key() != a.ty.key(): e = '((%s)%s)' % (E.cty(tp[i][0]), e)
+                aexprs.append(e)
+            call = '%s(%s)' % (E.fname(fn), ', '.join(aexprs))
+            if not isvoid:
+                if E.M.funcs[fn]['ret'].key() != rt.key(): call = '((%s)%s)' % (E.cty(rt), call)
+                call = '%s = %s' % (s.reg(d), call)
+            gt = E.M.globals[g]['ty']
+            addr = '((u8*)&%s.f%d.a[2])' % (E.gname(g), ai)
+            out.append('%sif (%s == %s) { %s; }' % ('' if first else 'else ', vp, addr, call))
+            first = False
+        out.append('else { IR_BAD_VPTR(); }')
+        return True
+
     def emit_intrinsic(s, I, out):
         E = s.E; n = I['callee'].name; d = I['dst']; A = [a[0] for a in I['args']]
         def ex(i): return E.vexpr(A[i], s)
@@ -1060,9 +1146,10 @@ class Fn:
         if n.startswith('llvm.memset') and A[2].kind == 'int' and A[1].kind == 'int' and A[1].v == 0:
             r = s.typed_copy(A[0], None, A[2].v)
             if r is not None: out.extend(r); return
-        if n.startswith('llvm.memcpy'): out.append('memcpy(%s, %s, %s);' % (ex(0), ex(1), ex(2))); return
-        if n.startswith('llvm.memmove'): out.append('memmove(%s, %s, %s);' % (ex(0), ex(1), ex(2))); return
-        if n.startswith('llvm.memset'): out.append('memset(%s, %s, %s);' % (ex(0), ex(1), ex(2))); return
+        dyn = len(A) > 2 and A[2].kind != 'int'   # symbolic length: explicit byte loop (CBMC's built-in memcpy with a symbolic size does not scale)
+        if n.startswith('llvm.memcpy'): out.append('%s((u8*)%s, (u8*)%s, %s);' % ('ir_memcpy' if dyn else 'memcpy', ex(0), ex(1), ex(2))); return
+        if n.startswith('llvm.memmove'): out.append('%s((u8*)%s, (u8*)%s, %s);' % ('ir_memmove' if dyn else 'memmove', ex(0), ex(1), ex(2))); return
+        if n.startswith('llvm.memset'): out.append('%s((u8*)%s, %s, %s);' % ('ir_memset' if dyn else 'memset', ex(0), ex(1), ex(2))); return
         if n.startswith('llvm.assume'): out.append('IR_ASSUME(%s);' % ex(0)); return
         if n.startswith('llvm.trap'): out.append('IR_TRAP();'); return
         if n.startswith('llvm.expect'): s.declare(d, I['ty']); out.append('%s = %s;' % (s.reg(d), ex(0))); return
@@ -1120,12 +1207,14 @@ typedef unsigned __int128 u128; typedef __int128 i128;
 #define IR_TRAP() __CPROVER_assert(0, "llvm.trap reached")
 #define IR_LANDINGPAD() __CPROVER_assume(0)
 #define IR_RESUME() __CPROVER_assume(0)
+#define IR_BAD_VPTR() do { __CPROVER_assert(0, "vassert L0 virtual call on an object with unknown vtable"); __CPROVER_assume(0); } while (0)
 #else
 #define IR_ASSUME(c) ((void)0)
 #define IR_UNREACHABLE() __builtin_trap()
 #define IR_TRAP() __builtin_trap()
 #define IR_LANDINGPAD() __builtin_trap()
 #define IR_RESUME() __builtin_trap()
+#define IR_BAD_VPTR() __builtin_trap()
 #endif
 #ifdef __CPROVER__
 #define VASSERT(c, n) __CPROVER_assert(c, "vassert L" #n)
@@ -1137,6 +1226,9 @@ void vassert_(int c, int id); void vassume_(int c); void vreach_(int id);
 #define VASSUME(c) vassume_(c)
 #define VREACH(n) vreach_(n)
 #endif
+static void ir_memcpy(u8* d, const u8* s, u64 n) { for (u64 i = 0; i < n; i++) d[i] = s[i]; }
+static void ir_memmove(u8* d, const u8* s, u64 n) { if (d <= s) { for (u64 i = 0; i < n; i++) d[i] = s[i]; } else { for (u64 i = n; i > 0; i--) d[i - 1] = s[i - 1]; } }
+static void ir_memset(u8* d, u8 c, u64 n) { for (u64 i = 0; i < n; i++) d[i] = c; }
 #define PUN(DT, ST, e) ({ ST pun_s__ = (e); DT pun_d__; memcpy(&pun_d__, &pun_s__, sizeof(DT)); pun_d__; })
 '''
 
@@ -1145,6 +1237,7 @@ def translate(text, roots, stubs=(), rename=None):
     E = Emitter(M)
     E.used_globals = set(); E.used_funcs = set()
     if rename: RENAME.update(rename)
+    roots = list(roots) + list(M.ctors)
     done = {}; work = list(roots); order = []
     fbodies = {}
     while work:
@@ -1178,7 +1271,7 @@ def translate(text, roots, stubs=(), rename=None):
     for n in sorted(E.used_funcs | set(done)):
         if n in M.aliases and M.aliases[n].kind == 'glob': continue
         f = M.funcs.get(n)
-        if f is None or n.startswith('llvm.'): continue
+        if f is None or n.startswith('llvm.') or n in stubs: continue
         if n in ('memcpy', 'memset', 'memmove', 'malloc', 'free', 'strlen', 'memcmp', 'abort', 'calloc', 'realloc', 'strcmp', 'strncmp', 'strcpy', 'strncpy', 'memchr'): continue
         ps = [E.cty(t) for (t, pn, a) in f['params']]
         if f['vararg']: ps.append('...')
@@ -1194,6 +1287,7 @@ def translate(text, roots, stubs=(), rename=None):
             gdecl.append('extern %s %s;' % (ct, E.gname(g)))
             gdefs.append('%s %s = %s;' % (ct, E.gname(g), E.init_expr(gi['init'])))
     bodies = [fbodies[n][1] for n in order]
+    bodies.append('void ir_run_global_ctors(void) {\n%s}\nvoid ir_entry(void) { ir_run_global_ctors(); harness(); }\n' % ''.join('  %s();\n' % E.fname(c) for c in M.ctors if c in fbodies))
     out += E.fwd + E.tydecl + protos + gdecl + gdefs + bodies
     return '\n'.join(out), dict(functions=order, externals=sorted(n for n in E.used_funcs if n not in fbodies and not n.startswith('llvm.')))
 
